@@ -172,4 +172,32 @@ example : readLocked 4 demoPages 0 2 10 = (.nodata, [3, 4, 5, 0, 7, 8]) := by de
 example : readLocked 4 demoPages 0 1 6 = (.ok, [2, 3, 4, 5, 0, 7]) := by decide
 example : readString 4 demoPages 0 2 (fun _ => true) 10 = (.ok, some [3, 4, 5]) := by decide
 
+/-- Page size not known: a non-empty read fails with `invalid` and reports that nothing was delivered;
+an empty read succeeds.  (The reported length is the length of the delivered list.) -/
+theorem read_unknown_ps (pages : Oracle) (as addr len : Nat) :
+    readApi 0 pages as addr len = if len = 0 then (.ok, []) else (.invalid, []) := by
+  by_cases h : len = 0
+  · subst h; simp [readApi, readLocked, readLoop]
+  · simp [readApi, h]
+
+/-- With a known page size the API read is the read loop, so every theorem above applies. -/
+theorem readApi_known (ps : Nat) (hps : 0 < ps) (pages : Oracle) (as addr len : Nat) :
+    readApi ps pages as addr len = readLocked ps pages as addr len := by
+  have : ps ≠ 0 := by omega
+  simp [readApi, this]
+
+/-- In every state (page size known or not) the reported length never exceeds the requested length,
+and a failure with an unknown page size never reports a delivered byte. -/
+theorem readApi_len_le (ps : Nat) (pages : Oracle) (as addr len : Nat) :
+    (readApi ps pages as addr len).2.length ≤ len := by
+  unfold readApi
+  split
+  · simp
+  · exact read_len_le ps pages as addr len
+
+/-- String read without a page size: fails, no result (no partial buffer). -/
+theorem string_unknown_ps (pages : Oracle) (as addr : Nat) (allocOk : Nat → Bool) (fuel : Nat) :
+    readStringApi 0 pages as addr allocOk fuel = (.invalid, none) := by
+  simp [readStringApi]
+
 end Kdf.Props.C12
